@@ -14,6 +14,12 @@ import numpy as np
 
 ID = 'C05'
 
+def nabs(x):
+    """abs() for tolerance tests: a NaN counts as an infinite difference (a result that is not a number equals nothing)"""
+    x = abs(x)
+    return float('inf') if x != x else x
+
+
 MANIFEST = dict(
     technique='explicit-state enumeration of the cost-matrix input tree x blank index x all label sequences; real force_align/align_text vs brute force over all C^T symbol paths',
     text='Bounded exhaustive: every cost matrix with T <= 4 (quick) / 5 (thorough) rows over an 8-row alphabet (ties, +inf, fractional) for C=3 and T <= 3/4 over 6 rows for C=4, every blank index, every label sequence of length 1..T+1 (repeats included) and sequences containing the blank; the same for float32 and integer cost matrices up to T = 3 / 4. Validity, optimality, the exact feasibility boundary and the most-confident-frame rule are checked against enumeration of all alignments. Added sub-sweeps: float32 / int64 cost matrices, costs shifted by +1000 / +200 (float32) / scaled by 1e-17, a 300-symbol output layer with small-integer label arrays, and lines of 260-1030 frames against a dynamic-programming minimum (validated against brute force in setup). Cost matrices whose entries are all negative.',
@@ -225,7 +231,7 @@ def check_long(case, ctx):
         ctx.violation('collapses-to-labels', f'{K}/force_align/not-collapsing', f'{desc}: the returned path ({len(got)} frames) does not collapse to the labels')
         return
     cost = sum(M[t][sy] for t, sy in enumerate(got))
-    if abs(cost - want) > 1e-6:
+    if nabs(cost - want) > 1e-6:
         ctx.violation('minimum-cost', f'{K}/force_align/suboptimal', f'{desc}: cost {cost}, dynamic-programming minimum {want}')
         return
     pos = [int(x) for x in align_text(A.copy(), np.asarray(labels), blank)]
@@ -399,7 +405,7 @@ def check_wide(case, ctx, M3):
                                   f'labels {labels} ({ldt}), blank {blank_arg!r}: returned {got}, which does not collapse to the labels', sub)
                     return
                 cost = sum(M3[t][s] for t, s in enumerate(back))
-                if finite and abs(cost - best[key]) > 1e-9:
+                if finite and nabs(cost - best[key]) > 1e-9:
                     ctx.violation('minimum-cost', f'{K}/force_align/suboptimal', f'labels {labels} ({ldt}): cost {cost}, minimum {best[key]}', sub)
                     return
             if finite and ldt != 'list':
